@@ -227,6 +227,11 @@ def run(repo: Repo, rep: Report, tier: str) -> None:
         except NotSelectionOnly as e:
             rep.unknown("C17-R3", "mod_positive: selection skeleton (r >= 0 -> r, r < 0 -> r + |b|)", str(e), "lib/math.facto:1")
 
+    # ---------------- R4 ---------------------------------------------------------------
+    from .shared import borrow as _borrow
+    _borrow(repo, rep, "C10", "C10-R9", "C17-R4", "library functions written with `cond : value` return their documented value for constant arguments too: folding a decider keeps a selected 0")
+
+
 
 def _split_entries(s: str) -> list[str]:
     return [x for x in s.split(";") if x]
